@@ -104,11 +104,12 @@ def union_size(ctx, L):
     for q, want in (('generate_union_get_byte_size', "return 'return {0};\\n'.format(node.byte_size)"),
                     ('generate_union_encoded_byte_size', 'return str(node.byte_size)')):
         f = m.func(q)
-        L.check(unparse(f.node.body[-1]) == want, 'F10.size-term', q, f.site(), 'a union has its static byte_size', unparse(f.node.body[-1]))
+        L.check(P.body_is(f, want, params=['node']), 'F10.size-term', q, f.site(), 'a union has its static byte_size', P.sem_body(f))
     f = m.func('generate_struct_encoded_byte_size')
-    L.check(re.sub(r'\s+', '', unparse(f.node.body[-1])) == "returnnode.kind==model.Kind.FIXEDandstr(node.byte_size)or'-1'",
+    L.check(P.body_is(f, "return node.kind == model.Kind.FIXED and str(node.byte_size) or '-1'",
+                      "if node.kind != model.Kind.FIXED:\n    return '-1'\nreturn str(node.byte_size)", params=['node']),
             'C04c.encoded-byte-size-fixed-only', 'generate_struct_encoded_byte_size', f.site(),
-            'encoded_byte_size publishes byte_size only for FIXED structs, -1 otherwise', unparse(f.node.body[-1]))
+            'encoded_byte_size publishes byte_size only for FIXED structs, -1 otherwise', P.sem_body(f))
 
 
 def byte_size_header(ctx, L):
